@@ -92,7 +92,7 @@ fn answered(c: &ClientEnd, acc: &mut Vec<u8>) -> bool {
 
 pub fn body(sc: Sc, obs: Arc<Mutex<O>>) {
     ctl::window(false);
-    ctl::spurious(true); // waits may return unnotified (std permits it): a 1-cost deviation
+    ctl::spurious(crate::l2::spurious_now()); // waits may return unnotified (std permits it): a 1-cost deviation
     let srv = start_server();
     let addr = srv.addr.clone();
     ctl::settle();
@@ -401,6 +401,7 @@ impl Check for C20 {
             bound: Some(*bound),
             max_execs: 600_000,
             wall: Duration::from_secs(if tier == Tier::Thorough { 300 } else { 30 }),
+            spurious_upto: Some(if tier == Tier::Thorough { (*bound).saturating_sub(1) } else { (*bound) }),
         };
         let (s2, s3) = (sc.clone(), sc.clone());
         let found = explore_scenario::<O, _, _>(&cfg, acc, &sc.to_json(), move |o| body(s2.clone(), o), |o, r| judge(&s3, o, r));
